@@ -223,7 +223,9 @@ def check(run: Run) -> None:
     sup = [c for c in calls_in(init) if isinstance(c.func, ast.Attribute) and c.func.attr == "__init__"]
     run.check(len(sup) == 1, "C12.R4", init, init.node, "EventDataset.__init__ calls ObjectStream.__init__ once", f"{len(sup)} base __init__ calls")
     if len(sup) == 1 and sup[0].args:
-        t = strip_sites(fi_a.term_of(sup[0].args[0]))
+        from ..terms import resolve_global_consts as _rgc
+
+        t = _rgc(m, strip_sites(fi_a.term_of(sup[0].args[0])))  # named module-level constants are their values
         d = dict(t[2]) if t[0] == "new" and t[1] == "Call" else {}
         sp2 = ("param", init.pos_params[0])
         fname = dict(d.get("func", ("new", "", ()))[2]).get("id") if d.get("func", ("x",))[0] == "new" else None
